@@ -1092,4 +1092,126 @@ Section REKEY.
         rewrite (Hout _ (rk_not_under_odir _)), (Hfree SPF []) in G1. discriminate.
     Qed.
   End STATES.
+
+  Lemma payload_names : forall (dd : path) r, payload_rel r = true ->
+    dd ++ r <> dd ++ [SPF] /\ dd ++ r <> dd ++ [SPT] /\ dd ++ r <> dd ++ [TMPPFX ++ [] ++ SPF] /\ dd ++ r <> dd.
+  Proof.
+    intros dd r Hp.
+    assert (Hnil : dd ++ r <> dd).
+    { intro E. rewrite <- (app_nil_r dd) in E at 2. apply app_inv_head in E. subst r. discriminate. }
+    destruct r as [|x [|y r]]; simpl in Hp; try discriminate.
+    - apply negb_true_iff in Hp. apply orb_false_iff in Hp. destruct Hp as [Hp Ht]. apply orb_false_iff in Hp.
+      destruct Hp as [H1 H2]. apply str_eqb_neq in H1, H2. repeat split; auto.
+      + intro E. apply app_inv_head in E. inversion E. contradiction.
+      + intro E. apply app_inv_head in E. inversion E. contradiction.
+      + intro E. apply app_inv_head in E. inversion E. subst x. unfold is_tmp_name in Ht.
+        assert (str_prefix TMPPFX (TMPPFX ++ [] ++ SPF) = true) by (apply str_prefix_spec; eauto). congruence.
+    - repeat split; auto; intro E; apply app_inv_head in E; discriminate.
+  Qed.
+
+  Section FREE.
+    Variables (c : content) (v0 : json).
+    Hypothesis G : get f0 fname = Some (File c).
+    Hypothesis Hod0 : get f0 odir = Some Dir.
+    Hypothesis Eo : occupied = false.
+    Variables f1 f2 : fs.
+    Hypothesis H1 : st1 c f1.
+
+    Definition st2 : Prop :=
+      forall q, get f2 q = match strip ndir q with
+                           | Some r => get f1 (odir ++ r)
+                           | None => if under odir q then None else get f1 q
+                           end.
+    Hypothesis H2 : st2.
+
+    Lemma st2_new : forall r, get f2 (ndir ++ r) = get f1 (odir ++ r).
+    Proof. intro r. rewrite H2, strip_app. reflexivity. Qed.
+
+    Lemma st2_old : forall r, get f2 (odir ++ r) = None.
+    Proof. intro r. rewrite H2, rk_strip_ndir, under_app. reflexivity. Qed.
+
+    Lemma st2_out : forall q, under odir q = false -> under ndir q = false -> get f2 q = get f0 q.
+    Proof.
+      intros q Ho Hn. rewrite H2. unfold under in Hn. destruct (strip ndir q); [discriminate|].
+      rewrite Ho. apply (st1_outside c f1 q H1 Ho).
+    Qed.
+
+    Lemma st1_pay : forall r c0, payload_rel r = true -> get f0 (odir ++ r) = Some (File c0) -> get f1 (odir ++ r) = Some (File c0).
+    Proof.
+      intros r c0 Hp Hg. destruct (payload_names odir r Hp) as [Hf [Hb _]].
+      rewrite (st1_same c f1 _ H1 Hb Hf). exact Hg.
+    Qed.
+
+    Lemma st1_odir : get f1 odir = Some Dir.
+    Proof.
+      rewrite (st1_same c f1 odir H1); auto; intro E; symmetry in E; revert E; apply path_eqb_neq, path_eqb_snoc_self.
+    Qed.
+
+    Lemma st1_fname : get f1 fname = None.
+    Proof.
+      rewrite H1, path_eqb_refl.
+      assert (E : path_eqb fname bak = false) by (unfold fname, bak; rewrite path_eqb_snoc; reflexivity).
+      rewrite E. reflexivity.
+    Qed.
+
+    (* states from the directory rename on: [g] agrees with f2 except, below the new directory, on the
+       backup, the state point file and the temp file *)
+    Lemma cinv_rk_late : forall g,
+      (forall q, q <> ndir -> q <> ndir ++ [SPF] -> q <> ndir ++ [SPT] -> q <> ndir ++ [TMPPFX ++ [] ++ SPF] -> get g q = get f2 q) ->
+      get g ndir = Some Dir ->
+      (forall c1, get g (ndir ++ [SPF]) = Some (File c1) -> forall v, c_json c1 = Some v -> v = nsp) ->
+      CInv frepr o wss f0 g.
+    Proof.
+      intros g Hsame Hnd Hnsp.
+      assert (Hold_side : forall r, get g (odir ++ r) = None).
+      { intro r. rewrite Hsame; [apply st2_old| | | |]; intro E;
+          [rewrite <- (app_nil_r ndir) in E| | |]; 
+          pose proof (rk_not_under_ndir r) as U; rewrite E in U; rewrite under_app in U; discriminate. }
+      apply rk_cinv.
+      - intros p Hp1 Hp2. rewrite Hsame; [apply st2_out; auto| | | |]; intro E; subst p;
+          [rewrite under_refl in Hp2|rewrite under_app in Hp2|rewrite under_app in Hp2|rewrite under_app in Hp2]; discriminate.
+      - intro E. rewrite Eo in E. discriminate.
+      - intros r c0 Hp Hg. right. split; auto. split; [apply Hold_side|].
+        destruct (payload_names ndir r Hp) as [Hf [Hb [Ht Hn]]].
+        rewrite Hsame; auto. rewrite st2_new. apply st1_pay; auto.
+      - left. rewrite <- (app_nil_r odir). apply Hold_side.
+      - intros _. right. exact Hnd.
+      - intros c1 G1. unfold fname in G1. rewrite Hold_side in G1. discriminate.
+      - intros _. exact Hnsp.
+    Qed.
+
+    Lemma cinv_rk_st2 : CInv frepr o wss f0 f2.
+    Proof.
+      apply cinv_rk_late.
+      - auto.
+      - rewrite <- (app_nil_r ndir). rewrite st2_new, app_nil_r. apply st1_odir.
+      - intros c1 G1. rewrite st2_new in G1. fold fname in G1. rewrite st1_fname in G1. discriminate.
+    Qed.
+
+    Lemma cinv_rk_st4 : forall f4,
+      (forall q, get f4 q = if path_eqb q (ndir ++ [SPT]) then None else get f2 q) -> CInv frepr o wss f0 f4.
+    Proof.
+      intros f4 H4. apply cinv_rk_late.
+      - intros q _ _ Hq _. rewrite H4. apply path_eqb_neq in Hq. rewrite Hq. reflexivity.
+      - rewrite H4, path_eqb_self_snoc. rewrite <- (app_nil_r ndir). rewrite st2_new, app_nil_r. apply st1_odir.
+      - intros c1 G1. rewrite H4 in G1. rewrite path_eqb_snoc in G1.
+        assert (Es : str_eqb SPF SPT = false) by reflexivity. rewrite Es in G1.
+        rewrite st2_new in G1. fold fname in G1. rewrite st1_fname in G1. discriminate.
+    Qed.
+
+    Lemma cinv_rk_init : forall f4 g,
+      (forall q, get f4 q = if path_eqb q (ndir ++ [SPT]) then None else get f2 q) ->
+      init_st frepr [] w1 w2 wr nsp f4 g -> CInv frepr o wss f0 g.
+    Proof.
+      intros f4 g H4 [Hout [Hdir [Hfile _]]]. fold ws new ndir in Hout, Hdir, Hfile.
+      assert (Hnd4 : get f4 ndir = Some Dir).
+      { rewrite H4, path_eqb_self_snoc. rewrite <- (app_nil_r ndir). rewrite st2_new, app_nil_r. apply st1_odir. }
+      apply cinv_rk_late.
+      - intros q Q1 Q2 Q3 Q4. rewrite Hout; auto. rewrite H4. apply path_eqb_neq in Q3. rewrite Q3. reflexivity.
+      - destruct Hdir as [E|E]; [rewrite E; exact Hnd4|exact E].
+      - intros c1 G1 v Jv. destruct Hfile as [Hn|[c2 [Hc Hj]]]; [rewrite Hn in G1; discriminate|].
+        rewrite Hc in G1. injection G1 as <-. destruct Hj as [Hj|Hj]; rewrite Hj in Jv; [discriminate|].
+        injection Jv as <-. reflexivity.
+    Qed.
+  End FREE.
 End REKEY.
